@@ -672,8 +672,9 @@ mod req {
         let mut rng = Rng(i.wrapping_mul(104729) | 1);
         let n = rng.below(6) as usize;
         let vals = ["v", "a: b", "x=y; z", "", " lead", "trail ", "a: b: c", "tab\tin", "ünï"];
-        let names = ["Host", "X-A", "Cookie", "Content-Length", "Accept", "X:Y"];
-        let headers = (0..n).map(|_| Header { name: names[rng.below(6) as usize].into(), value: vals[rng.below(9) as usize].into() }).collect();
+        // names with blanks, tabs and other control characters at their ends and inside: the reader keeps a name as it is written
+        let names = ["Host", "X-A", "Cookie", "Content-Length", "Accept", "X:Y", "X-Trailing ", " X-Leading", "X\tTabbed ", "X-\u{1}Ctl", "X-Bell\u{7}"];
+        let headers = (0..n).map(|_| Header { name: names[rng.below(11) as usize].into(), value: vals[rng.below(9) as usize].into() }).collect();
         let bl = rng.below(40) as usize;
         let body: Vec<u8> = (0..bl).map(|_| [b'a', b'\r', b'\n', 0u8, 0xff, 0x89, b':', b' '][rng.below(8) as usize]).collect();
         Request { method: METHODS[rng.below(9) as usize].into(), request_uri: ["/", "/a/b?c=d", "*", "/x#f"][rng.below(4) as usize].into(),
@@ -1248,6 +1249,15 @@ mod statics {
         // resolved against the link's own directory
         for (a, b) in [(0u64, 3u64), (10, 40), (99, 99), (0, 99)] {
             if let Some((c, o)) = check_range("dir/up.txt", a, b) { h.hit("ranges", &c, "Server::process", &format!("dir/up.txt|{}-{}", a, b), &o); }
+        }
+        // an unsatisfiable or malformed Range is answered 416 whichever way the lookup found the file: the file itself, the
+        // directory's index.html, the target with .html appended
+        for t in ["/all.dat", "/sub/", "/sub", "/configure", "/configure?tab=2"] {
+            for r in ["bytes=999999999-", "bytes=10-5", "lines=0-5", "bytes=abc-"] {
+                if let Some(p) = get(t, Some(r), "GET") {
+                    if p.status != 416 { h.hit("ranges", "c03_bad_range_status", "Server::process", &format!("{}|{}", t, r), &format!("{} instead of 416", p.status)); }
+                }
+            }
         }
         // history 1 (C03): the file grows / shrinks between two requests
         std::fs::write("hist.bin", vec![b'1'; 100]).unwrap();
